@@ -7,6 +7,7 @@
 //   LU  <p> n A[n*n] b[n]             -> OK isSingular | x[n] | X[n*2] | inv[n*n] | L[n*n] | U[n*n]
 //   LLT <p> n A[n*n] b[n]             -> OK | x[n] | inv[n*n] | L[n*n]
 //   EIG <p> n A[n*n]                  -> OK | values[n] (complex) | vectors[n*n] (complex, row-major; column j = eigenvector j)
+//   EIGRAW <p> n A[n*n]               same, without pre-sizing the result matrix (may crash for p = z: see below)
 // Numbers are printed with %a (floats widened exactly); sections are separated by " | "; "EXC <what>" on any exception.
 #include "SimTKmath.h"
 #include <cstdio>
@@ -80,10 +81,14 @@ template <class T> static void run(const std::string& kind) {
         std::printf("OK");
         prV(x); prM(inv); prM(L);
         std::printf("\n");
-    } else if (kind == "EIG") {
+    } else if (kind == "EIG" || kind == "EIGRAW") {
         int n = ni(); Matrix_<T> A = rdM<T>(n, n);
         Eigen e(A);
         Vector_<std::complex<R> > vals; Matrix_<std::complex<R> > vecs;
+        // EigenRep<complex<double>>::copyVectors writes into `vectors` without resizing it (the resize is inside a commented-out
+        // block; the other three element types resize).  EIG pre-sizes the result so that the run can go on; EIGRAW does what a
+        // caller naturally does (default-constructed result) and is run by the check in a process of its own.
+        if (kind == "EIG") vecs.resize(n, n);
         e.getAllEigenValuesAndVectors(vals, vecs);
         std::printf("OK");
         prV(vals); prM(vecs);
